@@ -223,7 +223,8 @@ func (g *callGraph) funcValueTargets(v ssa.Value) []*ssa.Function {
 
 // unwrap maps $bound/$thunk wrappers to the declared method.
 func unwrap(f *ssa.Function) *ssa.Function {
-	if f.Synthetic != "" && len(f.Blocks) > 0 {
+	isWrapper := strings.HasPrefix(f.Synthetic, "bound method wrapper") || strings.HasPrefix(f.Synthetic, "wrapper for") || strings.HasPrefix(f.Synthetic, "thunk for")
+	if isWrapper && len(f.Blocks) > 0 { // not: package initialisers, generic instances, range-over-func bodies
 		for _, b := range f.Blocks {
 			for _, i := range b.Instrs {
 				if cc := callCommon(i); cc != nil {
